@@ -5,6 +5,7 @@ package flavors
 import (
 	"io"
 	"runtime"
+	"slices"
 	"sort"
 	"strings"
 
@@ -489,6 +490,15 @@ func (obj *Flavor) MethodNames() slip.List {
 	return methods
 }
 
+func (obj *Flavor) inheritedInitable(key string) bool {
+	for _, f := range obj.inherit {
+		if f.initable[key] {
+			return true
+		}
+	}
+	return false
+}
+
 // LoadForm returns a list that can be evaluated to create the class or nil if
 // the class is a built in class.
 func (obj *Flavor) LoadForm() slip.Object {
@@ -531,16 +541,22 @@ func (obj *Flavor) LoadForm() slip.Object {
 		ivs,
 		inh,
 	}
-	if 0 < len(obj.initable) {
-		if len(obj.initable) == len(keys) {
+	// Only the inittable variables the flavor declares itself are part of its
+	// definition, the others are inherited from its components.
+	var inits []string
+	for k, v := range obj.initable {
+		if v && (slices.Contains(keys, k[1:]) || !obj.inheritedInitable(k)) {
+			inits = append(inits, k[1:])
+		}
+	}
+	if 0 < len(inits) {
+		if len(inits) == len(keys) {
 			df = append(df, slip.Symbol(":inittable-instance-variables"))
 		} else {
-			var iiv slip.List
-			iiv = append(iiv, slip.Symbol(":inittable-instance-variables"))
-			for k, v := range obj.initable {
-				if v {
-					iiv = append(iiv, slip.Symbol(k[1:]))
-				}
+			sort.Strings(inits)
+			iiv := slip.List{slip.Symbol(":inittable-instance-variables")}
+			for _, k := range inits {
+				iiv = append(iiv, slip.Symbol(k))
 			}
 			df = append(df, iiv)
 		}
